@@ -312,16 +312,8 @@ func (p *Prog) RepoSSAFuncs() []*ssa.Function {
 		if fn.Blocks == nil {
 			continue
 		}
-		if pk := fn.Package(); pk != nil && InRepo(pk.Pkg) {
+		if SSAFuncInRepo(fn) {
 			out = append(out, fn)
-		} else if fn.Parent() != nil {
-			q := fn
-			for q.Parent() != nil {
-				q = q.Parent()
-			}
-			if q.Package() != nil && InRepo(q.Package().Pkg) {
-				out = append(out, fn)
-			}
 		}
 	}
 	sort.Slice(out, func(i, j int) bool {
@@ -341,7 +333,14 @@ func SSAFuncInRepo(fn *ssa.Function) bool {
 	if fn.Origin() != nil {
 		fn = fn.Origin()
 	}
-	return fn.Package() != nil && InRepo(fn.Package().Pkg)
+	if fn.Package() == nil {
+		// synthetic wrappers, thunks and bound-method closures of repo methods
+		if o := fn.Object(); o != nil {
+			return InRepo(o.Pkg())
+		}
+		return false
+	}
+	return InRepo(fn.Package().Pkg)
 }
 
 // Reachable returns repo functions reachable in the call graph from the entries (closures of a
